@@ -590,7 +590,29 @@ class Interp:
         return False
 
     def st_With(self, s, f):
-        raise Unsupported("with statement")
+        """`with` over objects whose __enter__/__exit__ are modelled (library records, e.g. files): __enter__ at the start, __exit__ on
+        every way out; an __exit__ that suppresses exceptions is outside the subset (its result is ignored and exceptions propagate)"""
+        mgrs = []
+        for item in s.items:
+            mgr = self.eval(item.context_expr, f)
+            try:
+                enter = self.getattr_(mgr, "__enter__")
+            except PyExc:
+                raise Unsupported("with statement over an object without a modelled __enter__")
+            v = self.call(enter, [])
+            if v is None:
+                v = mgr                      # files return themselves
+            if item.optional_vars is not None:
+                self.assign(item.optional_vars, v, f)
+            mgrs.append(mgr)
+        try:
+            self.exec_block(s.body, f)
+        finally:
+            for mgr in reversed(mgrs):
+                try:
+                    self.call(self.getattr_(mgr, "__exit__"), [None, None, None])
+                except PyExc:
+                    raise Unsupported("with statement: __exit__ not modelled")
 
     def st_FunctionDef(self, s, f):
         """a nested function: a closure over the defining frame.  The enclosing locals are READ through the live frame (Python's
